@@ -123,5 +123,15 @@ META = {
   "design_ref": "DESIGN.md 6 C20",
   "technique": 'TLA+ JSON view over KParse/KEval + TLC-generated inputs replayed into `klog json`, decoded independently; TLC trace validation',
  },
+ "C07": {
+  "text": "Two specifications checked by TLC: the PlusCal model KParallel of workers, closer and collector (every interleaving for N=4,5, thorough 6: results stored by index, no send after close, termination; with a bug witness), and KChunks, the split/batch/merge data flow on all short byte strings x all worker counts (merged blocks = serial blocks). Binding: every KChunks text and a share of the generated documents/mutants are parsed by the real parallel parser with many worker counts and compared with the serial parser; every arrival order of the batch results is forced through hook H2; natural schedules are recorded and validated against KParallel's send/receive projection.",
+  "design_ref": "DESIGN.md 6 C07",
+  "technique": 'PlusCal/TLA+ models (KParallel, KChunks) model-checked by TLC; replay into NewParallelParser with forced arrival orders (hook H2); TLC trace validation',
+ },
+ "C19": {
+  "text": "TLC explores all histories of bookmark operations up to the tier's depth in the map model KBookmarks (normalisation laws, frame laws per operation) and emits each with list/info/resolution observers after every step; histories are replayed through the real CLI entry point with a temporary config folder; the database file after every step is decoded independently and TLC judges status, database content and order, listing, info and `@name`/default resolution of every step against the model.",
+  "design_ref": "DESIGN.md 6 C19",
+  "technique": 'TLA+ map model (KBookmarks) explored by TLC; histories replayed into `klog bookmarks`/`klog total @name`; TLC trace validation of whole histories',
+ },
 }
 HOOK_COMMITS = ["022feb6", "3577f1d", "054219c"]
